@@ -35,14 +35,16 @@ def viaSetState (recv name : String) : Bool :=
 
 /-! ## (1) the tables against the regenerated facts -/
 
-/-- every exported method of `Stack` found in the source is in the table (methods added later show up here) -/
+/-- every exported method of `Stack` found in the source is in the table, or — for methods added later — is
+classified from the regenerated facts alone as a query (reaches no write, no lock) or a guarded mutator
+(tests the read-only flag); a new method that is neither makes this theorem fail -/
 theorem C09_alphabet_complete_stack :
     (Gen.facts.filter (fun f => f.exported && f.recv == "Stack")).all
-      (fun f => (MethodInfo.find stackMethods f.name).isSome) = true := by decide
+      (fun f => (MethodInfo.findOrAuto stackMethods "Stack" f.name).isSome) = true := by decide
 
 theorem C09_alphabet_complete_cond :
     (Gen.facts.filter (fun f => f.exported && f.recv == "Condition")).all
-      (fun f => (MethodInfo.find condMethods f.name).isSome) = true := by decide
+      (fun f => (MethodInfo.findOrAuto condMethods "Condition" f.name).isSome) = true := by decide
 
 /-- and nothing in the tables is stale -/
 theorem C09_alphabet_no_stale :
